@@ -1201,3 +1201,5 @@ RULE += (' Branches also hold SetContext and UpdateContextFromStatic elements, a
 RULE += (' Added: accumulators filled with values whose context holds an object that refuses '
          'deep copy beside nested items: compute() may fail, its results share nothing with the '
          'filled value.')
+
+RULE += (' Round 10: contexts holding tuples of dictionaries (context.zip / context.combine); blocks of 17..200 values that start with 16..128 plain numbers, 2..9 branches.')
